@@ -97,3 +97,6 @@ def run(ctx):
     rules.factory_sites(ctx, "boundary")
     guards.factory_guards(ctx, "boundary")
     rules.elements_adjacent_complete(ctx)  # the predicate that routes a pair to the singular rule (ADJ-9)
+    from .. import spaces as _spaces
+
+    _spaces.localised_inherit(ctx)  # singular parts, sparse forms, potentials and FMM point maps are computed on the localised companion space
